@@ -28,7 +28,18 @@ class FakeFS:
 
 
 class Attrs(dict):
-    pass
+    """HDF5 attributes: numbers, strings, booleans and arrays only (h5py raises TypeError for
+    anything else, e.g. callables, dicts, None)"""
+
+    def __setitem__(self, k, v):
+        ok = isinstance(v, (int, float, complex, str, bytes, bool, _np.number, _np.bool_, _np.ndarray, Sc, SA, list, tuple))
+        if not ok or v is None:
+            raise TypeError(f"Object dtype {type(v).__name__!r} has no native HDF5 equivalent")
+        dict.__setitem__(self, k, v)
+
+    def update(self, other=(), **kw):
+        for k, v in dict(other, **kw).items():
+            self[k] = v
 
 
 class Dataset:
@@ -260,7 +271,11 @@ class FakeH5py:
 
         outer = self
 
-        class _File(FakeFile):
+        class _Meta(type):
+            def __instancecheck__(cls, x):
+                return isinstance(x, FakeFile)
+
+        class _File(FakeFile, metaclass=_Meta):
             def __new__(cls, path, mode="r", **kw):
                 return outer.open(str(path), mode, **kw)
 
@@ -431,6 +446,10 @@ class FakeDatetime:
         cls.n += 1
         return _Stamp(cls.n)
 
+    @classmethod
+    def fromisoformat(cls, s):
+        return _Stamp(int(str(s).split("#")[1].rstrip(">")) if "#" in str(s) else 0)
+
 
 class _Stamp:
     def __init__(self, n):
@@ -438,6 +457,12 @@ class _Stamp:
 
     def isoformat(self):
         return f"<wallclock#{self.n}>"
+
+    def __eq__(self, o):
+        return isinstance(o, _Stamp) and o.n == self.n
+
+    def __hash__(self):
+        return hash(self.n)
 
     def __sub__(self, o):
         return _Delta()
